@@ -22,7 +22,7 @@ RULE = (
     "give the same result as the defaults. Non-trivial: >= 3 distinct types and an explicit-file call in the history; distinct by SMILES."
 )
 ASSUMPTIONS = ["renumbering is applied to the generated molecule's RDKit object inside a deep copy of the MolGen (harness side)"]
-FLOORS = {"quick": {"molecules_typed": 150, "renumberings": 300, "explicit_file_calls": 100, "distinct_nontrivial": 40}, "thorough": {"molecules_typed": 4000}}
+FLOORS = {"quick": {"molecules_typed": 150, "renumberings": 300, "explicit_file_calls": 100, "partial_probed": 100, "distinct_nontrivial": 40}, "thorough": {"molecules_typed": 4000}}
 
 
 def plan(tier, seed):
@@ -92,7 +92,7 @@ def run_case(case):
             continue
         g = obs["mol"]
         text = subj.text
-        if not g.fully_generated:
+        if len(g.bond_descriptors) > 0:
             cnt["partial_probed"] += 1
             r = do_type(g, False)
             if r[0] in ("ok", "ffa"):
@@ -169,6 +169,20 @@ def run_case(case):
                 break
         if sample is None:
             sample = {"input": text, "smiles": smi, "atoms_typed": n, "distinct_types": len(set(v[0] for v in ff.values())), "history_explicit_flags": hist}
+    # deliberately partial molecules: a token / a prefix + object without its suffix, open descriptors with weight 0, 1, 2.5
+    for w in ("|0|", "", "|2.5|", "|0.0|"):
+        for txt, kind in ((f"CCO[>{w}]", "token"), (f"OC[<{w}]", "token"), (f"CC[>{w}]{{[>{w}] [<]CC[>{w}] [<{w}]}}|gauss(80,5)|", "molecule")):
+            try:
+                obj = gbigsmiles.SmilesToken(txt, 0, 0) if kind == "token" else gbigsmiles.Molecule(txt)
+                g = obj.generate(rng=W.spy(3))
+            except Exception:
+                continue
+            if g is None or len(g.bond_descriptors) == 0:
+                continue
+            cnt["partial_probed"] += 1
+            r = do_type(g, False)
+            if r[0] in ("ok", "ffa"):
+                viol.append({"cls": "c20.partial-molecule-typed", "msg": f"{txt}: a molecule with {len(g.bond_descriptors)} open descriptors (weights {[b.weight for b in g.bond_descriptors]}) was typed instead of refused", "text": txt})
     cnt.update({k: v for k, v in trace.take_counters().items() if k.startswith("contract.attach")})
     cnt["evaluations"] = cnt["typing_calls"] + cnt["renumberings"]
     seen = collections.Counter()
